@@ -1043,6 +1043,14 @@ class Executor:
         if attr == "_replace":
             yield st, ("replace", base, tuple(kwargs))
             return
+        if base[0] == "arg" and self.inline:
+            # self.method(...) inside a class: inline the sibling method
+            meth = self._sibling_method(st, base, attr)
+            if meth is not None:
+                active = [f.fn for f in st.frames]
+                if len(st.frames) <= MAX_INLINE_DEPTH and meth not in active and not _is_generator(meth):
+                    yield from self._inline(node, meth, mod, [base] + args, kwargs, st)
+                    return
         if attr in MUTATORS and base[0] not in ("glob", "builtin"):
             uid = st.new_uid()
             st.epoch += 1
@@ -1111,6 +1119,19 @@ class Executor:
         res = ("call", ft, tuple(allargs), uid)
         eff = Eff("call", node, mod, func=ft, args=allargs, result=res, method=None, base=None)
         yield from self._may_raise(st, eff, res)
+
+    def _sibling_method(self, st, base, attr):
+        fr = st.frame
+        sc = fr.mod.scopes.get(fr.fn)
+        if sc is None or not sc.params or sc.params[0] != base[1]:
+            return None
+        cls = fr.mod.parent.get(fr.fn)
+        if not isinstance(cls, ast.ClassDef):
+            return None
+        for n in cls.body:
+            if isinstance(n, ast.FunctionDef) and n.name == attr:
+                return n
+        return None
 
     def _inline(self, node, fn, fmod, args, kwargs, st: St):
         sc = fmod.scopes[fn]
